@@ -159,6 +159,10 @@ func segJobs(fam string, spec string, faults bool, pre int, ms ...int) []job {
 func c08Jobs(thorough bool) []job {
 	var jobs []job
 	add := func(js ...job) { jobs = append(jobs, js...) }
+	// the sequences of the repository's own sequential tests (one thread: one schedule each)
+	for _, s := range selfSeqs() {
+		add(s.j)
+	}
 	fams := []string{"h", "b"}
 	if !thorough {
 		for _, fam := range fams {
@@ -345,11 +349,21 @@ func runJudged(j job, ch vrt.Chooser, states *vrt.StateSet, trace bool) judged {
 func c08Run(c *fw.Ctx) {
 	buildModel()
 	if c.Shard == 0 {
-		if msg := selfTest(); msg != "" {
+		// (a) the oracle itself, on synthetic histories (independent of the tree under test);
+		// (b) the sequences of the repository's sequential tests through the real client: the
+		// observed "asked the node / served from cache" pattern is compared with what those tests
+		// pin. (b) depends on the tree: a mutant that changes the caching discipline shows up as a
+		// mismatch counter (and, where it breaks the property, as violations of the job list).
+		agree, mismatch, msg := selfTest()
+		if msg != "" {
 			c.HarnessError("self-test of the counting rule failed: %s", msg)
 			return
 		}
-		c.Count("selftest_sequences", 6)
+		c.Count("selftest_sequences_agree_with_repo_tests", int64(agree))
+		c.Count("selftest_sequences_differ_from_repo_tests", int64(len(mismatch)))
+		for _, m := range mismatch {
+			c.Sample(map[string]any{"selftest_mismatch": m})
+		}
 	}
 	jobs := c08Jobs(c.Thorough())
 	if n, _ := strconv.Atoi(os.Getenv("C08_MAXJOBS")); n > 0 && n < len(jobs) {
@@ -414,8 +428,8 @@ func c08Run(c *fw.Ctx) {
 			if s.OverlapSameKey {
 				c.Count("executions_two_threads_in_same_segment", 1)
 			}
-			if s.SharedSliceTwoFilters {
-				c.Count("executions_one_cached_slice_two_filters", 1)
+			if s.SharedSlice {
+				c.Count("executions_two_callers_same_slice", 1)
 			}
 			if s.MaxServedPerFetch >= j.M {
 				c.Count("executions_reuse_at_the_bound", 1)
@@ -528,12 +542,13 @@ func c08Replay(c *fw.Ctx, raw json.RawMessage) {
 // (one thread, default schedule) and checks that the classification "asked the node /
 // served from cache" and the verdict agree with what those tests pin; then feeds the judge
 // synthetic histories that exceed the bound and must be flagged.
-func selfTest() string {
-	type want struct {
-		j       job
-		pattern string // per call: F = asked the node, C = served from cache
-	}
-	seqs := []want{
+type selfSeq struct {
+	j       job
+	pattern string // per call: F = asked the node, C = served from cache
+}
+
+func selfSeqs() []selfSeq {
+	return []selfSeq{
 		// TestCache_MaxReads / TestGet_Cached_Pruned: maxreads=2 → fetch, cached, fetch
 		{job{M: 2, Threads: [][]string{{"G:h:3:1", "G:h:3:1", "G:h:3:1"}}}, "FCF"},
 		{job{M: 2, Threads: [][]string{{"G:blA:1:2", "G:blB:1:2", "G:blA:1:2"}}}, "FCF"},
@@ -543,13 +558,18 @@ func selfTest() string {
 		{job{M: 1, Init: 4, Threads: [][]string{{"L:0", "L:3", "L:4"}}}, "FCF"},
 		{job{M: 2, Init: 4, Threads: [][]string{{"L:0", "L:3", "L:3", "L:3"}}}, "FCCF"},
 	}
-	for _, s := range seqs {
+}
+
+func selfTest() (agree int, mismatch []string, fatal string) {
+	for _, s := range selfSeqs() {
 		x := runJudged(s.j, explore.Replay(nil), nil, false)
 		if x.res.harness != "" {
-			return "harness: " + x.res.harness
+			return 0, nil, "harness: " + x.res.harness
 		}
 		if x.vio != nil {
-			return fmt.Sprintf("sequence %s flagged: %s %s", s.j, x.vio.Key, x.vio.Detail)
+			// a finding on this tree: reported through the job list (the sequences are jobs too)
+			mismatch = append(mismatch, fmt.Sprintf("sequence %s flagged: %s", s.j, x.vio.Key))
+			continue
 		}
 		got := ""
 		for _, c := range x.res.h.Calls {
@@ -569,8 +589,10 @@ func selfTest() string {
 			}
 		}
 		if got != s.pattern {
-			return fmt.Sprintf("sequence %s: classification %s, the repository's tests pin %s", s.j, got, s.pattern)
+			mismatch = append(mismatch, fmt.Sprintf("sequence %s: classification %s, the repository's tests pin %s", s.j, got, s.pattern))
+			continue
 		}
+		agree++
 	}
 	// synthetic: one fetch followed by maxreads+1 cached reads of its slice must be flagged
 	mk := func(m, cached int) *history {
@@ -590,10 +612,10 @@ func selfTest() string {
 	}
 	for m := 1; m <= 3; m++ {
 		if v, _ := judge(mk(m, m), "", nil); v != nil {
-			return fmt.Sprintf("synthetic: %d cached reads with maxreads=%d flagged (%s)", m, m, v.Key)
+			return agree, mismatch, fmt.Sprintf("synthetic: %d cached reads with maxreads=%d flagged (%s)", m, m, v.Key)
 		}
 		if v, _ := judge(mk(m, m+1), "", nil); v == nil || !strings.HasPrefix(v.Key, "reuse-exceeds-maxreads") {
-			return fmt.Sprintf("synthetic: %d cached reads with maxreads=%d not flagged", m+1, m)
+			return agree, mismatch, fmt.Sprintf("synthetic: %d cached reads with maxreads=%d not flagged", m+1, m)
 		}
 	}
 	// synthetic head: ask, then maxreads+1 cached reads of the announced pair
@@ -614,13 +636,13 @@ func selfTest() string {
 	}
 	for m := 1; m <= 3; m++ {
 		if v, _ := judge(mkH(m, m), "", nil); v != nil {
-			return fmt.Sprintf("synthetic head: %d cached reads with maxreads=%d flagged (%s)", m, m, v.Key)
+			return agree, mismatch, fmt.Sprintf("synthetic head: %d cached reads with maxreads=%d flagged (%s)", m, m, v.Key)
 		}
 		if v, _ := judge(mkH(m, m+1), "", nil); v == nil || v.Key != "reuse-exceeds-maxreads:head" {
-			return fmt.Sprintf("synthetic head: %d cached reads with maxreads=%d not flagged", m+1, m)
+			return agree, mismatch, fmt.Sprintf("synthetic head: %d cached reads with maxreads=%d not flagged", m+1, m)
 		}
 	}
-	return ""
+	return agree, mismatch, ""
 }
 
 func newExchange() *simeth.Exchange { return &simeth.Exchange{} }
